@@ -95,6 +95,7 @@ def shards(tier):
         out.append({'kind': 'adaptive', 'first': f})
     for n in (130, 260, 300):
         out.append({'kind': 'many', 'n': n})
+    out.append({'kind': 'border'})
     return out
 
 
@@ -103,6 +104,12 @@ def run_shard(shard, ctx, tier):
     import sys
     mod = sys.modules[__name__]
     b = BOUNDS[tier]
+    if shard['kind'] == 'border':
+        for d in (1, 2):
+            for strong_top in (0, 1):
+                for ds in (1, 4):
+                    guarded_check(mod, {'border': d, 'strong_top': strong_top, 'ds': ds}, ctx)
+        return
     if shard['kind'] == 'many':
         for ds in (1, 2):
             guarded_check(mod, {'many': shard['n'], 'ds': ds}, ctx)
@@ -155,7 +162,7 @@ def paint(ridges, shape):
         ys = np.round(g['row'] + g['slope'] * (xs - g['x0'])).astype(int)
         for t in range(g['thick']):
             yy = np.clip(ys - (g['thick'] - 1) // 2 + t, 0, shape[0] - 1)
-            maps[yy, xs, 2] = 1.0
+            maps[yy, xs, 2] = g.get('resp', 1.0)
         for dy in range(-6, 7):
             yy = np.clip(ys + dy, 0, shape[0] - 1)
             maps[yy, xs, 0] = g['h'][0]
@@ -455,7 +462,27 @@ def check_many(case, ctx):
         ctx.tag('more-than-255-ridges' if n > 255 else 'more-than-127-ridges')
 
 
+def check_border(case, ctx):
+    """one ridge next to the top border of the map and one next to the bottom border, one of them faint: the two borders are not neighbours"""
+    d, ds = case['border'], case['ds']
+    H, W = MAP_SHAPE
+    faint, strong = 0.7, 1.0
+    ridges = [{'row': d, 'x0': 30, 'x1': 150, 'slope': 0.0, 'thick': 3, 'h': (6.0, 2.0), 'ep': False, 'resp': strong if case['strong_top'] else faint},
+              {'row': H - 1 - d, 'x0': 30, 'x1': 150, 'slope': 0.0, 'thick': 3, 'h': (6.0, 2.0), 'ep': False, 'resp': faint if case['strong_top'] else strong}]
+    ctx.state(('border', d, case['strong_top'], ds))
+    maps = paint(ridges, MAP_SHAPE)
+    ctx.reseed()
+    b_list, h_list, t_list = engine().parse(maps.copy(), ds)
+    ctx.executed()
+    desc = f'ridges in rows {d} (response {ridges[0]["resp"]}) and {H - 1 - d} (response {ridges[1]["resp"]}) of a {H} x {W} map, ds={ds}'
+    if check_lines(b_list, h_list, t_list, ridges, ds, ctx, f'{ID}/parse/ridges-at-the-map-borders', desc, case):
+        ctx.outcome(('border', len(b_list)))
+        ctx.tag('ridges-next-to-the-map-borders')
+
+
 def check_case(case, ctx):
+    if 'border' in case:
+        return check_border(case, ctx)
     if 'many' in case:
         return check_many(case, ctx)
     if 'adaptive' in case:
@@ -477,5 +504,5 @@ def describe(tier):
         'assumptions': ['end points within 3 map px, rows within (1 + thickness/2) map px (+ slope x 3), heights exact for constant maps',
                         'the rotated pass is compared with the exact inverse rot90 of the layout decoded from the rotated image, tolerance 1 px'],
         'min_nontrivial': 100, 'required_tags': ['several-ridges', 'with-end-point-responses', 'sloped-ridges', 'rotated-non-square-pages',
-                          'two-lines-starting-on-the-same-row', 'print-size-changes-between-pages', 'adaptive-factor-changed', 'page-exceeds-the-pixel-budget', 'more-than-255-ridges', 'non-default-engine-options'],
+                          'two-lines-starting-on-the-same-row', 'print-size-changes-between-pages', 'adaptive-factor-changed', 'page-exceeds-the-pixel-budget', 'more-than-255-ridges', 'non-default-engine-options', 'ridges-next-to-the-map-borders'],
     }
